@@ -21,9 +21,9 @@ Definition is_get_defaults (o : op) : bool := match o with OGetDefaults => true 
    Outside the guard a case is attributed to its listed finding class only if the implementation
    fails EXACTLY as the faithful model says (bug for bug); a spec failure that the model does not
    reproduce is a different defect and gets the unlisted class 9. *)
-Definition judge_heap (fx : bool) (c : hcase) : verdict :=
+Definition judge_heap (sm fx : bool) (c : hcase) : verdict :=
   let n0 := length (c_heap c) in
-  let r := run_op_gen fx (c_parser c) (c_op c) (mkst (c_heap c) g0) in
+  let r := run_op_sm sm fx (c_parser c) (c_op c) (mkst (c_heap c) g0) in
   let s := out_st r in
   let m_ok := match r with Ok _ _ => true | Err _ _ => false end in
   let m_res := match r with Ok v s' => view FUEL n0 (s_h s') v | Err _ _ => ONone end in
@@ -35,7 +35,9 @@ Definition judge_heap (fx : bool) (c : hcase) : verdict :=
                       (is_get_defaults (c_op c)) (c_result c) in
   let k := guard_class (c_parser c) (c_heap c) (c_op c) in
   {| v_model := model;
-     v_class := if fx then 0%N
+     v_class := if fx then (if sm then 0%N
+                            else let k4 := groups_class (c_heap c) (c_op c) in   (* guard of C08_fixed_frame *)
+                                 if N.eqb k4 0 then 0%N else if negb model && negb spec then 9%N else k4)
                 else if N.eqb k 0 then 0%N
                 else if negb model && negb spec then 9%N else k;
      v_spec := spec |}.
@@ -89,17 +91,23 @@ Definition judge_aux (c : acase) : verdict :=
      v_spec := forallb (fun b => b) (a_globals c) && a_args_same c && a_defaults_same c |}.
 
 Inductive case := HeapCase (c : hcase) | InstCase (c : icase) | AuxCase (c : acase).
-Definition judge1_gen (fx fx2 : bool) (c : case) : verdict :=
-  match c with HeapCase h => judge_heap fx h | InstCase i => judge_inst fx2 i | AuxCase a => judge_aux a end.
+(* sm: strip_meta always copies (fixes/C08-empty-config-not-copied.patch; theorem C08_fixed3_frame, no guard) *)
+Definition judge1_gen (sm fx fx2 : bool) (c : case) : verdict :=
+  match c with HeapCase h => judge_heap sm fx h | InstCase i => judge_inst fx2 i | AuxCase a => judge_aux a end.
 
-Definition judge1 : case -> verdict := judge1_gen false false.
+Definition judge1 : case -> verdict := judge1_gen false false false.
 Definition judge (cs : list case) := judge_all judge1 cs.
 
 (* ---- after fixes/C08-container-below-tuple-shared.patch and fixes/C08-parse-object-adapts-in-place.patch
    have been applied: set JUDGE = "judge_fixed" in tie/props/c08.py *)
-Definition judge1_fixed : case -> verdict := judge1_gen true false.
+Definition judge1_fixed : case -> verdict := judge1_gen false true false.
 Definition judge_fixed (cs : list case) := judge_all judge1_fixed cs.
 
-(* ---- after fixes/C08-default-below-tuple-shared.patch has been applied as well: JUDGE = "judge_fixed2" *)
-Definition judge1_fixed2 : case -> verdict := judge1_gen true true.
+(* ---- after fixes/C08-default-below-tuple-shared.patch has been applied as well: JUDGE = "judge_fixed2"
+   (the current tree: open finding class 4, empty-config-not-copied) *)
+Definition judge1_fixed2 : case -> verdict := judge1_gen false true true.
 Definition judge_fixed2 (cs : list case) := judge_all judge1_fixed2 cs.
+
+(* ---- after fixes/C08-empty-config-not-copied.patch has been applied as well: JUDGE = "judge_fixed3" (no guard left) *)
+Definition judge1_fixed3 : case -> verdict := judge1_gen true true true.
+Definition judge_fixed3 (cs : list case) := judge_all judge1_fixed3 cs.
